@@ -50,6 +50,20 @@ Theorem C01_child_confined :
 Proof. exact C01Facts.child_confined. Qed.
 Print Assumptions C01_child_confined.
 
+(* virtual selectors (real|args, real?args): the part that reaches the file system *)
+Theorem C01_virtual_confined :
+  forall root s p, is_secure s = true -> starts_with_slash s = true -> fst (virtual_split s) <> [] ->
+    getfspath root (fst (virtual_split s)) = Some p -> inside root p = true.
+Proof. exact C01Facts.virtual_confined. Qed.
+Print Assumptions C01_virtual_confined.
+
+(* the type rewriter (/1/path -> /path) re-enters the handler chain with a confined selector *)
+Theorem C01_rewriter_confined :
+  forall root s p, is_secure s = true -> rewriter_accepts s = true ->
+    getfspath root (rewriter_target s) = Some p -> inside root p = true.
+Proof. exact C01Facts.rewriter_confined. Qed.
+Print Assumptions C01_rewriter_confined.
+
 (* non-vacuity: a concrete secure selector and root *)
 Example C01_example :
   is_secure (lit "/docs/a.txt"%string) = true /\ starts_with_slash (lit "/docs/a.txt"%string) = true /\
